@@ -79,7 +79,11 @@ def cases(draw, tier):
             tree = {"k": "scale", "c": {"t": "float", "v": sc}, "side": "l", "ch": [tree]}
     if la in ("Cholesky", "Lanczos") and trait != "pd":
         la = g.pick(["omitted", "Auto", "LU"])
-    return {"tree": tree, "log_alg": la, "trace_alg": g.pick(TR_ALGS), "declare": g.boolean(), "fn": g.pick(["slogdet", "slogdet", "logdet"])}
+    # payload scale of the dense / triangular leaves: the determinant itself may leave the floating point range (10^-480
+    # for 8 x 8 in double precision) while sign and log-magnitude stay perfectly representable
+    lscale = 0 if la in ("Lanczos", "Arnoldi") else g.pick([0, 0, 0, 0, -1, 1])
+    return {"tree": tree, "log_alg": la, "trace_alg": g.pick(TR_ALGS), "declare": g.boolean(), "fn": g.pick(["slogdet", "slogdet", "logdet"]),
+            "leaf_scale": lscale}
 
 
 def strategy(tier):
@@ -95,10 +99,25 @@ def make_algs(case, n):
     return la, ta
 
 
+def scale_leaves(node, sign):
+    """copy of the tree with every dense-like payload multiplied by 10^(sign * 60) (10^(sign * 7) in single precision)"""
+    node = dict(node)
+    if "a" in node and node["k"] in ("dense", "tri", "lazify", "matmat"):
+        a = IR.dec(node["a"])
+        e = 7 if a.dtype in (np.float32, np.complex64) else 60
+        node["a"] = gen.enc((a * a.dtype.type(10.0) ** (sign * e)).astype(a.dtype))
+    if "ch" in node:
+        node["ch"] = [scale_leaves(c, sign) for c in node["ch"]]
+    return node
+
+
 def check(case, out):
     import cola
     L = cola.linalg
     tree = case["tree"]
+    if case.get("leaf_scale"):
+        tree = scale_leaves(tree, case["leaf_scale"])
+        out.label("leaf_scale:%+d" % case["leaf_scale"])
     R = IR.denote(tree)
     n = R.shape[0]
     out.label(*TP.tree_labels(tree, R))
